@@ -28,7 +28,7 @@ ENZYMES = ["BsaI", "BbsI", "BsmBI", "FokI", "BspQI", "BtgZI"]
 
 
 def cases(tier, seed):
-    n = 700 if tier == "quick" else 30000
+    n = 700 if tier == "quick" else 100000
     out = []
     for i in range(n):
         out.append({"kind": "assembly", "i": i, "seed": seed, "enzyme": ENZYMES[i % len(ENZYMES)],
